@@ -78,7 +78,10 @@ pub fn gen_base(c: &mut Case<'_>, allow_body: bool) -> Base {
             }
         }
     }
-    if feat.dup_query_unsorted && !c.allow("query-dup-value-order") {
+    // Order among the values of a repeated name: the specification says "sorted by value", the AWS signers do so,
+    // minio-java keeps the request order and the repository pins that behaviour in a unit test (special_20230204).
+    // Stated don't-care: repeated names are only generated with their values already in sorted order.
+    if feat.dup_query_unsorted {
         // sort the values of repeated names (by construction)
         pairs.sort_by(|a, b| (pct::encode(&a.0, false), pct::encode(&a.1, false)).cmp(&(pct::encode(&b.0, false), pct::encode(&b.1, false))));
         feat.dup_query_unsorted = false;
@@ -102,8 +105,9 @@ pub fn gen_base(c: &mut Case<'_>, allow_body: bool) -> Base {
             0 => format!("x-amz-meta-{}", c.t.string1(Alpha::Simple, 5)),
             1 => (*c.t.pick(&["content-type", "cache-control", "x-amz-storage-class", "content-language", "x-amz-tagging"])).to_owned(),
             2 if i > 0 && c.allow("hdr-repeated-name") => {
-                // repeat an earlier extra header name on another line
-                let cands: Vec<&String> = headers.iter().map(|(n, _)| n).filter(|n| *n != "host").collect();
+                // repeat an earlier free-form header name on another line (typed single-valued members of the
+                // operation and x-amz-meta-* must not be repeated: C02 demands their refusal)
+                let cands: Vec<&String> = headers.iter().map(|(n, _)| n).filter(|n| n.starts_with("x-verif-")).collect();
                 if cands.is_empty() { format!("x-verif-{i}") } else { (*c.t.pick(&cands)).clone() }
             }
             _ => format!("x-verif-{}", c.t.string1(Alpha::Simple, 4)),
@@ -112,13 +116,14 @@ pub fn gen_base(c: &mut Case<'_>, allow_body: bool) -> Base {
         if value.is_empty() {
             value.push('v');
         }
-        if c.t.chance(40) && c.allow("hdr-inner-ws") {
+        if c.t.chance(40) && (name.starts_with("x-verif-") || name.starts_with("x-amz-meta-")) && c.allow("hdr-inner-ws") {
             // a run of inner whitespace
             let at = value.char_indices().nth(value.chars().count() / 2).map_or(value.len(), |(i, _)| i);
-            value.insert_str(at, *c.t.pick(&["  ", "   ", " \t", "\t"]));
+            // (runs of spaces only: how signers treat horizontal tabs differs and is not asserted)
+            value.insert_str(at, *c.t.pick(&["  ", "   ", "    "]));
         }
         if headers.iter().any(|(n, _)| *n == name) {
-            if name == "content-type" || !c.allow("hdr-repeated-name") {
+            if !name.starts_with("x-verif-") || !c.allow("hdr-repeated-name") {
                 continue;
             }
             feat.repeated_header = true;
@@ -404,7 +409,7 @@ fn rewrite(c: &mut Case<'_>, req: &mut Req, signed: &[String]) -> Option<String>
             req.headers[i].1 = match c.t.below(3) {
                 0 => format!(" {v}"),
                 1 => format!("{v}  "),
-                _ => format!("\t{v} "),
+                _ => format!("  {v} "),
             };
         }
         "path-spelling" => {
@@ -601,7 +606,7 @@ fn verdict_case(c: &mut Case<'_>) -> CaseResult {
     }
     let got_accept = out.authenticated_as();
     let feature_sig = |def: String| -> String {
-        if base.feat.inner_ws { "hdr-inner-ws".into() } else if base.feat.repeated_header { "hdr-repeated-name".into() } else if base.feat.dup_query_unsorted { "query-dup-value-order".into() } else { def }
+        if base.feat.inner_ws { "hdr-inner-ws".into() } else if base.feat.repeated_header { "hdr-repeated-name".into() } else { def }
     };
     match (&want, got_accept) {
         (Verdict::Accept { access_key, region, service }, Some((ak, r, s))) => {
@@ -660,7 +665,6 @@ pub fn run(r: &mut Runner) {
     };
     r.probe("hdr-inner-ws", probe("hdr-inner-ws", |r| { r.headers.push(("x-amz-meta-a".into(), "a  b".into())); vec!["x-amz-meta-a".into()] }, |_| {}));
     r.probe("hdr-repeated-name", probe("hdr-repeated-name", |r| { r.headers.push(("x-amz-meta-a".into(), "one".into())); r.headers.push(("x-amz-meta-a".into(), "two".into())); vec!["x-amz-meta-a".into()] }, |_| {}));
-    r.probe("query-dup-value-order", probe("query-dup-value-order", |r| { r.query = Some("qa=2&qa=1".into()); vec![] }, |_| {}));
     r.probe("scope-date-unbound", probe("scope-date-unbound", |_| vec![], |r| {
         let a = r.header("authorization").unwrap().replace("20130524/us-east-1", "20130525/us-east-1");
         r.set_header("authorization", &a);
